@@ -15,7 +15,7 @@
 (* It is also the behaviour generator of the plan replayed into the real gadget *)
 (* (history variable `calls`, hidden from the state space by a VIEW).           *)
 EXTENDS Naturals, Sequences, TLC
-CONSTANTS MaxCalls, CostDecode, CostEncode, CostMutate, Mutators
+CONSTANTS MaxCalls, CostDecode, CostEncode, CostMutate, Mutators, WithEq
 VARIABLES st, epoch, encEpoch, eltEpoch, ncons, transitions, calls, unreachable
 vars == <<st, epoch, encEpoch, eltEpoch, ncons, transitions, calls, unreachable>>
 view == <<st, epoch, encEpoch, eltEpoch, transitions, Len(calls), unreachable>>
@@ -37,6 +37,10 @@ ForceElement == /\ Len(calls) < MaxCalls /\ ForceElt
 ReadValue ==    /\ Len(calls) < MaxCalls /\ ForceElt
                 /\ unreachable' = (unreachable \/ st' = "Encoding")
                 /\ calls' = Append(calls, "V") /\ UNCHANGED <<epoch, encEpoch>>
+\* enforce_equal(other): compares elements, i.e. forces this variable's element (the other variable is not modelled)
+EnforceEq ==    /\ Len(calls) < MaxCalls /\ ForceElt
+                /\ unreachable' = (unreachable \/ st' = "Encoding")
+                /\ calls' = Append(calls, "Q") /\ UNCHANGED <<epoch, encEpoch>>
 \* encoding(): if Element, compress and move to Both; then return the encoding
 ForceEncoding == /\ Len(calls) < MaxCalls
                  /\ IF st = "Element"
@@ -51,7 +55,7 @@ Mutate(m) == /\ Len(calls) < MaxCalls
              /\ ncons' = ncons + (IF st = "Encoding" THEN CostDecode ELSE 0) + CostMutate
              /\ transitions' = 0
              /\ calls' = Append(calls, m) /\ UNCHANGED unreachable
-Next == ForceElement \/ ForceEncoding \/ ReadValue \/ (\E m \in Mutators : Mutate(m))
+Next == ForceElement \/ ForceEncoding \/ ReadValue \/ (WithEq /\ EnforceEq) \/ (\E m \in Mutators : Mutate(m))
 Spec == Init /\ [][Next]_vars
 
 TypeOK == st \in {"Encoding", "Element", "Both"}
